@@ -10,7 +10,7 @@ package main
 //	  x uncaught ending x prior-output mode x file extension
 //
 // ops: set_exception_handler(v) for every callable form v of the language (and null),
-// restore_exception_handler(), register_shutdown_function(closure).
+// restore_exception_handler(), register_shutdown_function(closure), set_error_handler(closure).
 // The reference model is PHP's handler stack; it only decides the *expectation class* of a cell:
 // effective handler none / returns / throws  -> the statement applies (error ending),
 // effective handler calls exit(n)             -> control (the script chose its status; recorded only).
@@ -47,6 +47,7 @@ var hops = []hop{
 	{"set(closure0)", `set_exception_handler(function () { echo "H:closure0\n"; });`, true, "returns"},
 	{"set(arrow)", `set_exception_handler(fn($e) => hmark_c05());`, true, "returns"},
 	{"set(fcc)", `set_exception_handler((new HK_c05())->m(...));`, true, "returns"},
+	{"set(bound)", `set_exception_handler(Closure::bind(function ($e) { echo "H:bound\n"; }, new HK_c05(), HK_c05::class));`, true, "returns"},
 	{"set(name)", `set_exception_handler("hfun_c05");`, true, "returns"},
 	{"set(method)", `set_exception_handler([new HK_c05(), "m"]);`, true, "returns"},
 	{"set(static)", `set_exception_handler("HK_c05::s");`, true, "returns"},
@@ -54,6 +55,8 @@ var hops = []hop{
 	{"set(exits)", `set_exception_handler(function ($e) { echo "H:exits\n"; exit(3); });`, true, "exits"},
 	{"restore", `restore_exception_handler();`, false, ""},
 	{"shutdown", `register_shutdown_function(function () { echo "SD\n"; });`, false, ""},
+	// PHP's error handler sees warnings / notices only, never a Throwable: no effect on the handler stack
+	{"errhandler", `set_error_handler(function ($no, $str) { echo "EH\n"; return true; });`, false, ""},
 }
 
 var hsites = []string{"top", "func", "include"}
@@ -117,20 +120,19 @@ func allHists(maxLen int) [][]int {
 }
 
 type hBounds struct {
-	LenBySite map[string]int `json:"max_history_length_by_site"`
-	Endings   []string       `json:"endings"`
+	LenBySite   map[string]int `json:"max_history_length_by_site"`
+	Endings     []string       `json:"endings"`
+	EndingsLong []string       `json:"endings_for_histories_of_3_ops"`
 }
 
 func hTierBounds(quick bool) hBounds {
+	short := []string{"uncaught-exception", "uncaught-runtime-modzero", "uncaught-in-function", "uncaught-in-finally", "uncaught-in-included-file"}
 	if quick {
-		return hBounds{
-			LenBySite: map[string]int{"top": 2, "func": 1, "include": 1},
-			Endings:   []string{"uncaught-exception", "uncaught-runtime-modzero", "uncaught-in-function", "uncaught-in-finally", "uncaught-in-included-file"},
-		}
+		return hBounds{LenBySite: map[string]int{"top": 2, "func": 1, "include": 1}, Endings: short, EndingsLong: short}
 	}
-	b := hBounds{LenBySite: map[string]int{"top": 3, "func": 2, "include": 2}}
+	b := hBounds{LenBySite: map[string]int{"top": 3, "func": 2, "include": 2}, Endings: short, EndingsLong: short}
 	for _, e := range endings {
-		if e.Class == "uncaught" {
+		if e.Class == "uncaught" && !has(short, e.Name) {
 			b.Endings = append(b.Endings, e.Name)
 		}
 	}
@@ -181,11 +183,16 @@ func hControlCells() []g2Cell {
 	return cells
 }
 
-func hCells(b hBounds, excluded map[string]bool) (cells []g2Cell, nHist int) {
+// hCells streams every cell of the family to emit and returns the number of (history, site) pairs.
+func hCells(b hBounds, excluded map[string]bool, emit func(g2Cell)) (nHist int) {
 	for _, s := range hsites {
 		for _, h := range allHists(b.LenBySite[s]) {
 			nHist++
-			for _, en := range b.Endings {
+			ends := b.Endings
+			if len(h) > 2 {
+				ends = b.EndingsLong
+			}
+			for _, en := range ends {
 				e := *endingByName(en)
 				for _, p := range priors {
 				ext:
@@ -195,7 +202,7 @@ func hCells(b hBounds, excluded map[string]bool) (cells []g2Cell, nHist int) {
 								continue ext
 							}
 						}
-						cells = append(cells, makeHCell(e, p, x, h, s))
+						emit(makeHCell(e, p, x, h, s))
 					}
 				}
 			}
@@ -210,6 +217,7 @@ type hSeen struct {
 	Cell    g2Cell
 	Obs     g2Obs
 	Clauses []string // violated clauses of a judged cell
+	Ran     bool     // a user handler's marker line is on stdout
 }
 
 func hCellKey(hist, site, ending, prior, ext string) string {
@@ -269,7 +277,7 @@ func (r *g2Result) reportHandlers(c *ev.Check) {
 	for i := range r.HSeen {
 		s := &r.HSeen[i]
 		tab[hCellKey(s.Cell.Hist, s.Cell.Site, s.Cell.Ending, s.Cell.Prior, s.Cell.Ext)] = s
-		if strings.Contains(s.Obs.Stdout, hMarker) {
+		if s.Ran {
 			ran[s.Cell.Hist+"|"+s.Cell.Site+"|"+s.Cell.Ending+"|"+s.Cell.Ext] = true
 		}
 	}
@@ -315,39 +323,56 @@ func (r *g2Result) reportHandlers(c *ev.Check) {
 			continue
 		}
 		hr := ranOf(s)
-		rh, rs := s.Cell.Hist, s.Cell.Site
-		covers := func(hist, site string) bool {
-			t := tab[hCellKey(hist, site, s.Cell.Ending, s.Cell.Prior, s.Cell.Ext)]
-			if t == nil || ranOf(t) != hr {
-				return false
+		// reduce by table lookup to a fixpoint: a simpler cell (shorter sub-history, top-level site,
+		// plain `throw` ending, no prior output) that fails at least the same clauses the same way
+		// stands for this one
+		cur := s
+		for {
+			co := own(cur)
+			covers := func(hist, site, ending, prior string) *hSeen {
+				t := tab[hCellKey(hist, site, ending, prior, cur.Cell.Ext)]
+				if t == nil || t == cur || ranOf(t) != hr {
+					return nil
+				}
+				to := own(t)
+				for _, cl := range co {
+					if !has(to, cl) {
+						return nil
+					}
+				}
+				return t
 			}
-			to := own(t)
-			for _, cl := range o {
-				if !has(to, cl) {
-					return false
+			type cand struct{ hist, site string }
+			var cands []cand
+			for _, sh := range subHists(cur.Cell.Hist) {
+				cands = append(cands, cand{sh, "top"})
+				if cur.Cell.Site != "top" {
+					cands = append(cands, cand{sh, cur.Cell.Site})
 				}
 			}
-			return true
-		}
-		// candidates, simplest first: shorter sub-histories (top-level site before the cell's own
-		// site), then the same history at the top-level site
-		type cand struct{ hist, site string }
-		var cands []cand
-		for _, sh := range subHists(s.Cell.Hist) {
-			cands = append(cands, cand{sh, "top"})
-			if s.Cell.Site != "top" {
-				cands = append(cands, cand{sh, s.Cell.Site})
+			if cur.Cell.Site != "top" {
+				cands = append(cands, cand{cur.Cell.Hist, "top"})
 			}
-		}
-		if s.Cell.Site != "top" {
-			cands = append(cands, cand{s.Cell.Hist, "top"})
-		}
-		for _, cd := range cands {
-			if covers(cd.hist, cd.site) {
-				rh, rs = cd.hist, cd.site
+			cands = append(cands, cand{cur.Cell.Hist, cur.Cell.Site}) // same history: simpler ending / prior mode only
+			var next *hSeen
+		search:
+			for _, cd := range cands {
+				for _, en := range []string{r.HBounds.Endings[0], cur.Cell.Ending} {
+					for _, pr := range []string{"none", cur.Cell.Prior} {
+						if t := covers(cd.hist, cd.site, en, pr); t != nil {
+							next = t
+							break search
+						}
+					}
+				}
+			}
+			if next == nil {
 				break
 			}
+			cur = next
 		}
+		rh, rs := cur.Cell.Hist, cur.Cell.Site
+		o = own(cur)
 		g := grp{ran: hr, clauses: strings.Join(o, "+")}
 		if !hr {
 			g.site, g.nops = rs, strings.Count(rh, ";")+1
